@@ -51,7 +51,8 @@ def _key(kind):
     from cryptography.hazmat.primitives.asymmetric import ec, ed25519, rsa
 
     if kind.startswith("rsa"):
-        return rsa.generate_private_key(public_exponent=65537, key_size=2048)
+        # "rsa-weak": a key size OpenSSL refuses at its default security level
+        return rsa.generate_private_key(public_exponent=65537, key_size=1024 if kind == "rsa-weak" else 2048)
     if kind.startswith("ed"):
         return ed25519.Ed25519PrivateKey.generate()
     return ec.generate_private_key(ec.SECP256R1())
